@@ -3,8 +3,10 @@ import json
 
 from vlib import core, npcgen, twoconf
 
+from harness import c03_ext
+
 PROP = 'C03'
-MODEL_MODULES = ['TenpyModel.Util.J', 'TenpyModel.C03.Calls']
+MODEL_MODULES = ['TenpyModel.Util.J', 'TenpyModel.C03.Calls', 'TenpyModel.C03.ExtNet']
 PROPS_MODULES = ['TenpyModel.C03.Props', 'TenpyModel.C03.PropsCalls']
 LEVEL = 'proof'
 BUDGET = {'quick': 170, 'thorough': 1500}
@@ -35,7 +37,13 @@ RULE = ('histories: typed random walk (8-14 steps after set-up) over the public 
         'kind=net: every getter / measurement / derivation / constructor / in-place method of MPS and MPO, environments, and '
         'two-operand functions (overlap, add, MPSEnvironment, MPOEnvironment, TransferMatrix, correlation functions with '
         'bra != ket) on pairs of MPS with differently gauged total charge / different sectors / segments, observing stored '
-        'tensors (values, leg charges, qtotal), get_total_charge() and the identities of the _B/_S entries.')
+        'tensors (values, leg charges, qtotal), get_total_charge() and the identities of the _B/_S entries. '
+        'Extension (kind=ext, harness/c03_ext.py, Lean model ExtNet): typed walks (10-18 calls) over MPS(...)/copy/get_B/set_B/'
+        'get_SL,SR/set_SL,SR/enlarge_mps_unit_cell/roll_mps_unit_cell and MPO(...)/copy/get_W/set_W/get_IdL,IdR/'
+        'enlarge_mps_unit_cell/sort_legcharges on caller-owned tensor / singular-value / form / IdL lists that are edited '
+        'afterwards, tensor-level in-place methods on stored tensors, ~22% malformed constructor calls (wrong lengths, unknown '
+        'bc, missing labels, wrong-size singular values) and out-of-range indices; result (value or exception class) and the '
+        'sharing relation of all registered objects compared with the model after every call, both kernels.')
 TRUSTED = ['Lean 4.33 kernel; axioms of every C03_* theorem ⊆ {propext, Classical.choice, Quot.sound}',
            'hand-written heap model lean/TenpyModel/C03/{Heap,Ops,Calls}.lean, tied to tenpy/linalg/np_conserved.py, '
            'charges.py and _npc_helper.pyx by this correspondence run: the sharing relation (which list / array / buffer '
@@ -304,6 +312,8 @@ def run(ctx):
     else:
         cases = load_corpus() + cases_for(ctx, 'main', 16000, 600)
     res.merge(evaluate(ctx, cases))
+    # extension round: network level (MPS / MPO containers) against the Lean model ExtNet, own PRNG stream 'ext'
+    res.merge(c03_ext.run_ext(ctx, 320 if ctx.quick else 6000))
     ops = {k[3:]: v for k, v in res.hist.items() if k.startswith('op=')}
     res.extra['operations_exercised'] = len(ops)
     res.extra['inplace_steps'] = sum(v for k, v in ops.items() if k in INPLACE_OPS or k.startswith('setitem'))
@@ -318,8 +328,12 @@ def run(ctx):
 
 def search(ctx, reasons):
     cases = load_corpus() + cases_for(ctx, 'search', 600, 32)
-    return evaluate(ctx, cases, use_model=False)
+    res = evaluate(ctx, cases, use_model=False)
+    res.merge(c03_ext.search_ext(ctx, 400))
+    return res
 
 
 def replay(ctx, payload):
+    if payload['case'].get('kind') == 'ext':
+        return c03_ext.evaluate(ctx, [payload['case']])
     return evaluate(ctx, [payload['case']])
